@@ -368,7 +368,7 @@ func checkFlatten(c Case, r *vf.R) error {
 						r.Class("ellipse:generic")
 						cst = 20
 					default:
-						if r.Excluded("F03ab", true) {
+						if r.Excluded("F03b", true) {
 							continue
 						}
 					}
@@ -377,7 +377,9 @@ func checkFlatten(c Case, r *vf.R) error {
 						return vf.Errorf("Flatten(%g): elliptical arc (segment %d, rx=%g ry=%g) deviates %g from the polyline at t=%.3f (allowed %g t + 3e-3 rx = %g)", t, si, rx, ry, worst, wt, cst, cst*t+floor)
 					}
 					// known finding F03c: the arc->cubic error floor does not vanish with t
-					r.Excluded("F03c", worst > cst*t)
+					if worst > cst*t && !r.Excluded("F03c", true) {
+						return vf.Errorf("Flatten(%g): elliptical arc (segment %d, rx=%g ry=%g) deviates %g = %.1f t from the polyline (allowed %g t): the error does not vanish with t", t, si, rx, ry, worst, worst/t, cst)
+					}
 				}
 				if nontrivial {
 					r.NonTrivial()
@@ -404,11 +406,15 @@ func checkFlatten(c Case, r *vf.R) error {
 					cst = 40
 					vf.Max(fmt.Sprintf("flatten %s generic c=%g err/t", kind, cst), ratio, desc)
 				default:
-					// near-degenerate control polygon or near-cusp: known finding classes F03a/F03b
-					if r.Excluded("F03ab", true) {
+					// collinear control polygon (F03a) or near-cusp / badly conditioned (F03b): known finding classes
+					if cd.minSin < 1e-6 {
+						if r.Excluded("F03a", true) {
+							continue
+						}
+					} else if r.Excluded("F03b", true) {
 						continue
 					}
-					cst = 12
+					cst = 40
 				}
 				if nontrivial {
 					r.NonTrivial()
